@@ -1,6 +1,6 @@
 /* LD_PRELOAD interposer: records the ordered device-level operations a tool issues on files whose path
  * contains $IOT_MATCH, with the written bytes, into $IOT_LOG (binary records: op[1] off[8] len[8] data[len]).
- *   ops: 'O' open (off=flags)  'W' write  'S' fsync/fdatasync  'T' ftruncate(off=len)  'F' fallocate(off, len; data=mode as 4 bytes)  'C' close
+ *   ops: 'O' open (off=flags)  'W' write that succeeded (data = bytes actually written)  'w' write attempt refused by the kernel  'S' fsync/fdatasync  'T' ftruncate(off=len)  'F' fallocate(off, len; data=mode as 4 bytes)  'C' close
  * Fault injection (deterministic):
  *   IOT_KILL_AT=N  : _exit(137) immediately before the N-th (0-based) 'W' operation is performed
  *   IOT_FAIL_FROM=N, IOT_FAIL_COUNT=M : 'W' operations N..N+M-1 fail with EIO (both pwrite and write paths)
@@ -71,7 +71,13 @@ static int wgate(void)
 ssize_t pwrite64(int fd, const void *b, size_t n, off64_t o)
 {
 	init();
-	if (hit(fd)) { if (wgate()) { rec('E', o, 0, n); errno = EIO; return -1; } rec('W', o, b, n); }
+	if (hit(fd)) {
+		ssize_t r; int e;
+		if (wgate()) { rec('E', o, 0, n); errno = EIO; return -1; }
+		r = r_pwrite64(fd, b, n, o); e = errno;
+		if (r > 0) rec('W', o, b, r); else rec('w', o, 0, n);	/* 'w': attempted write that the kernel refused (e.g. read-only descriptor) */
+		errno = e; return r;
+	}
 	return r_pwrite64(fd, b, n, o);
 }
 ssize_t pwrite(int fd, const void *b, size_t n, off_t o) { return pwrite64(fd, b, n, o); }
@@ -80,19 +86,27 @@ ssize_t write(int fd, const void *b, size_t n)
 	init();
 	if (fd > 2 && hit(fd)) {
 		off64_t o = lseek64(fd, 0, SEEK_CUR);
+		ssize_t r; int e;
 		if (wgate()) { rec('E', o, 0, n); errno = EIO; return -1; }
-		rec('W', o, b, n);
+		r = r_write(fd, b, n); e = errno;
+		if (r > 0) rec('W', o, b, r); else rec('w', o, 0, n);
+		errno = e; return r;
 	}
 	return r_write(fd, b, n);
 }
 int fsync(int fd) { init(); if (hit(fd)) rec('S', 0, 0, 0); return r_fsync(fd); }
 int fdatasync(int fd) { init(); if (hit(fd)) rec('S', 0, 0, 0); return r_fdatasync(fd); }
-int ftruncate64(int fd, off64_t len) { init(); if (hit(fd)) rec('T', len, 0, 0); return r_ftruncate64(fd, len); }
+int ftruncate64(int fd, off64_t len) { int r, e, h; init(); h = hit(fd); r = r_ftruncate64(fd, len); e = errno; if (h) rec(r == 0 ? 'T' : 't', len, 0, 0); errno = e; return r; }
 int ftruncate(int fd, off_t len) { return ftruncate64(fd, len); }
 int fallocate64(int fd, int mode, off64_t off, off64_t len)
 {
 	init();
-	if (hit(fd)) { int32_t m = mode; char buf[4]; memcpy(buf, &m, 4); rec('F', off, 0, 0); rec('f', len, buf, 4); }
+	if (hit(fd)) {
+		int32_t m = mode; char buf[4]; int r, e;
+		r = r_fallocate64(fd, mode, off, len); e = errno;
+		if (r == 0) { memcpy(buf, &m, 4); rec('F', off, 0, 0); rec('f', len, buf, 4); } else rec('t', off, 0, 0);
+		errno = e; return r;
+	}
 	return r_fallocate64(fd, mode, off, len);
 }
 int fallocate(int fd, int mode, off_t off, off_t len) { return fallocate64(fd, mode, off, len); }
